@@ -93,7 +93,11 @@ func (s *rpS3) DownloadSegment(ctx context.Context, key string, rng *ByteRange) 
 	return s.MemoryS3Client.DownloadSegment(ctx, key, rng)
 }
 
-func (s *rpS3) setFail(seg, idx bool) { s.mu.Lock(); s.failSegment, s.failIndex = seg, idx; s.mu.Unlock() }
+func (s *rpS3) setFail(seg, idx bool) {
+	s.mu.Lock()
+	s.failSegment, s.failIndex = seg, idx
+	s.mu.Unlock()
+}
 
 // rpCfg is one configuration of the read path.
 type rpCfg struct {
@@ -134,7 +138,7 @@ type rpPart struct {
 	inflight  int   // ref[:inflight] were drained by the parked flush
 	published int64 // last offset handed to onFlush
 	seq       int
-	skipTo    int64 // gap layouts: the log was re-opened at this later start offset
+	skipTo    int64               // gap layouts: the log was re-opened at this later start offset
 	ever      map[int64][]rpBatch // every batch ever appended, by base offset (across restarts)
 	cat       []byte
 	pos       []int
